@@ -39,7 +39,10 @@ def run(args):
         for lo, hi in shards:
             # the unordered generator makes no order claim (multiset only); sorted() over symbolic
             # payloads is expensive, so it is explored for <= 4 jobs only
-            funcs = [f for f in PROPS if (hi <= 4 or f != "generator_unordered_is_a_permutation") and (lo <= 3 or f not in OPTIONAL)] + (TWINS if lo <= 3 else [])
+            # (quick: <= 3 jobs - with exactly 4 jobs the condition needs ~150-200 s of CrossHair time and came back
+            # "Not confirmed" when two checks shared the machine; thorough, with its larger budget: <= 4 jobs)
+            umax = 3 if args.tier == "quick" else 4
+            funcs = [f for f in PROPS if (hi <= umax or f != "generator_unordered_is_a_permutation") and (lo <= 3 or f not in OPTIONAL)] + (TWINS if lo <= 3 else [])
             futs.append((lo, hi, funcs, ex.submit(run_harness, HARNESS, funcs, timeout,
                                                    {"C32_MINJ": str(lo), "C32_MAXJ": str(hi)}, max(2, args.jobs // len(shards)))))
         for lo, hi, funcs, f in futs:
@@ -91,6 +94,7 @@ def run(args):
                            "parallel.<locals>.yield_results", "parallel.<locals>.f"],
         bounds=dict(jobs=f"0..{maxj} (symbolic count, symbolic integer payloads)", n_jobs="1..16 (symbolic)",
                     completion_order="every permutation (symbolic)", per_condition_timeout_s=timeout,
+                    unordered_generator=f"multiset condition explored for <= {3 if args.tier == 'quick' else 4} jobs",
                     outside="job lists longer than the bound; progress bars (pbar=None); exceptions inside jobs"),
         assumptions=["joblib.Parallel stub contract: return_as='generator_unordered' yields every result exactly once in an arbitrary order; "
                      "'generator'/list keep submission order",
